@@ -18,7 +18,7 @@
 #
 import re
 
-from sim.core import bounded, HarnessError, Violation, canon, geometric, r, stream, weighted_choice
+from sim.core import sut_len, bounded, HarnessError, Violation, canon, geometric, r, stream, weighted_choice
 
 NAME = "C09"
 
@@ -475,7 +475,7 @@ class Run(object):
         trie, model = self.tries[t], self.models[t]
         minimal = model.minimal()
         self.stats.checks += 2
-        n = len(trie)
+        n = sut_len(trie)
         if n != len(minimal):
             self.fail("len", op, n, len(minimal), {"trie": t, "minimal": [".".join(a) for a in minimal]})
         self.judge_iteration(t, bounded(trie, len(model.added)), op)
@@ -515,8 +515,8 @@ class Run(object):
         else:
             self.stats.checks += 1
             n_min = len(self.models[t].minimal())
-            if len(self.tries[t]) != n_min:
-                self.fail("len", op, len(self.tries[t]), n_min, {"trie": t})
+            if sut_len(self.tries[t]) != n_min:
+                self.fail("len", op, sut_len(self.tries[t]), n_min, {"trie": t})
         model = self.models[t]
         self.stats.state(model.text(), nontrivial=bool(model.added))
 
@@ -579,8 +579,8 @@ class Run(object):
         self.stats.checks += 2
         if not odd:
             n_min = len(model.minimal())
-            if len(trie) != n_min:
-                self.fail("len", op, len(trie), n_min, {"added": len(hostnames)})
+            if sut_len(trie) != n_min:
+                self.fail("len", op, sut_len(trie), n_min, {"added": len(hostnames)})
         else:
             self.stats.probe("bundled_entries_not_ordinary_hostnames", len(odd))
         got = sorted(g for g in bounded(trie, len(hostnames)) if isinstance(g, str) and is_ordinary(g) and not related(canonical_labels(g)))
@@ -694,7 +694,7 @@ class Run(object):
                 self.fail("match", op, got, False, {"url": ev["url"]})
             stats.event("%s|match_hostless|%s" % (ev.get("c"), r(ev["url"])))
         elif op == "len":
-            n = len(self.tries[t])
+            n = sut_len(self.tries[t])
             exp = len(self.models[t].minimal())
             stats.checks += 1
             if n != exp:
@@ -755,7 +755,7 @@ class Run(object):
             # same multiset, different schedules: identical observations
             obs = []
             for i, trie in enumerate(self.tries):
-                obs.append((len(trie), sorted(bounded(trie, len(self.models[i].added))), self.models[i].text()))
+                obs.append((sut_len(trie), sorted(bounded(trie, len(self.models[i].added))), self.models[i].text()))
             stats.checks += 1
             if any(o[2] != obs[0][2] for o in obs):
                 # after minimisation the per-trie multisets may differ; only
